@@ -43,6 +43,10 @@ def main() -> int:
         from crosshair.core_and_libs import MessageType, analyze_function, run_checkables
         from crosshair.options import AnalysisKind, AnalysisOptionSet
 
+        if os.environ.get("XSV_DEBUG"):
+            from crosshair.util import set_debug
+
+            set_debug(True)
         mod = importlib.import_module(modname)
         fn = getattr(mod, fname)
         stats: collections.Counter = collections.Counter()
